@@ -174,6 +174,24 @@ Fixpoint pick_ok (ts : list (node * val)) : nat :=
   | t :: ts' => if failed t then S (pick_ok ts') else O
   end.
 
+(* the schedule recorded by a run: [seq] lists the nodes in the order in which they were collected;
+   the running task that comes first in [seq] completes next (a task that is not in [seq] was
+   never collected: it comes last) *)
+Fixpoint pos_in (x : nid) (seq : list nid) : nat :=
+  match seq with
+  | [] => O
+  | y :: seq' => if N.eqb x y then O else S (pos_in x seq')
+  end.
+Fixpoint best_pos (seq : list nid) (ts : list (node * val)) : nat * nat :=   (* (index, position) *)
+  match ts with
+  | [] => (O, S (List.length seq))
+  | t :: ts' =>
+      let p := pos_in (n_id (fst t)) seq in
+      let '(i, q) := best_pos seq ts' in
+      if Nat.leb p q then (O, p) else (S i, q)
+  end.
+Definition pick_seq (seq : list nid) (ts : list (node * val)) : nat := fst (best_pos seq ts).
+
 (* nodes from which END is reachable (the executions that feed the result) *)
 Fixpoint anc_iter (g : graph) (fuel : nat) (acc : list nid) : list nid :=
   match fuel with
